@@ -97,3 +97,117 @@ def tie(prop, tag, items, shard=2):
     """items: (session dict, scripts, observed dict) -> list of bit codes from Model/SessionTie.tie_session"""
     lits = [f'({csession(s, sc)}, {cobserved(ob)})' for s, sc, ob in items]
     return pc.run_shards(prop, tag, IMP_T, 'session * observed', 'tie_session (fst k) (snd k)', lits, shard)
+
+
+# ---------------------------------------------------------------- the sequential reference (Spec/SessionSpec.v)
+IMP_S = 'From BE Require Import Spec.SessionSpec Model.Json Model.JsonTie Model.CaseLib.\nFrom Coq Require Import ZArith.'
+
+
+def csaid(sc):
+    calls = '[' + '; '.join(f'({lib.cstr(t)}, bn {v})' for t, v in sc['calls']) + ']'
+    cards = '[' + '; '.join(f'({lib.cstr(t)}, cn {v})' for t, v in sc['cards']) + ']'
+    return f'(mkSaid {calls} {cards})'
+
+
+def spec_lit(sess, scripts, ob):
+    n = len(sess['arrivals'])
+    boards = '[' + '; '.join(f"(mkSB {lib.cstr(b['board_id'])} (sn {b['dealer']}) (vn {b['vul']}) (dfn {jc.ll(b['deal'])}) {jc.cdda(b.get('dda'))})" for b in sess['boards']) + ']'
+    reqs = '[' + '; '.join(f"(mkReq (sn {a['seat']}) {lib.cstr(a['team'])} {a.get('version', 18)})" for a in sess['arrivals']) + ']'
+    per = '[' + '; '.join('[' + '; '.join(csaid(sc) for sc in scripts.get(f'cli{i}', [])) + ']' for i in range(n)) + ']'
+    log = 'None' if ob['log'] is None else '(Some [' + '; '.join(jc.cj(r) for r in ob['log']) + '])'
+    down = '[' + '; '.join('[' + '; '.join(lib.cstr(x) for x in l) + ']' for l in ob['down']) + ']'
+    return f'({boards}, {reqs}, {per}, {log}, {down})'
+
+
+def spec_check(prop, tag, items, shard=2):
+    """items: (session, scripts, observed) -> bit codes of Spec/SessionSpec.session_ok (1 log, 2 lines to seated clients, 4 turned-away handling)"""
+    lits = [spec_lit(s, sc, ob) for s, sc, ob in items]
+    T = 'list sboard * list request * list (list said) * option (list json) * list (list string)'
+    return pc.run_shards(prop, tag, IMP_S, T, "let '(b, r, s, l, d) := k in session_ok b r s l d", lits, shard)
+
+
+def replica_lit(rep):
+    k = rep['contract']
+    pl = rep.get('play')
+    if pl is None or pl == 'unobserved':
+        play = 'None'
+    else:
+        hist = '[' + '; '.join(f"({t[0]}, {pc.nl(t[1])})" for t in pl['history']) + ']'
+        play = f"(Some ({pl['leader']}, {pl['active']}, {pl['trick_num']}, {pl['ns']}, {pl['ew']}, {lib.cbool(pl['done'])}, {hist}, {pc.nl(pl['hand'])}, {lib.copt(pl['dummy'], pc.nl)}))"
+    return f"({lib.copt(k[0], str)}, {lib.cbool(k[1])}, {lib.cbool(k[2])}, {k[3]}, {lib.copt(k[4], str)}, {play})"
+
+
+def replicas_check(prop, tag, items, shard=2):
+    """items: (session, scripts, replicas dict from the driver) -> 0 ok / 1 bad"""
+    lits = []
+    for s, scr, reps in items:
+        n = len(s['arrivals'])
+        boards = '[' + '; '.join(f"(mkSB {lib.cstr(b['board_id'])} (sn {b['dealer']}) (vn {b['vul']}) (dfn {jc.ll(b['deal'])}) {jc.cdda(b.get('dda'))})" for b in s['boards']) + ']'
+        reqs = '[' + '; '.join(f"(mkReq (sn {a['seat']}) {lib.cstr(a['team'])} {a.get('version', 18)})" for a in s['arrivals']) + ']'
+        per = '[' + '; '.join('[' + '; '.join(csaid(x) for x in scr.get(f'cli{i}', [])) + ']' for i in range(n)) + ']'
+        rl = '[' + '; '.join('[' + '; '.join(replica_lit(x) for x in reps.get(f'cli{i}', [])) + ']' for i in range(n)) + ']'
+        lits.append(f'({boards}, {reqs}, {per}, {rl})')
+    T = 'list sboard * list request * list (list said) * list (list obs_replica)'
+    return pc.run_shards(prop, tag, IMP_S, T, "let '(b, r, s, x) := k in if replicas_ok b r s x then 0 else 1", lits, shard)
+
+
+def gen_sessions(ctx, salt, nsess, boards_choices, strategies_per, arrivals_fn=None, styles=('competitive', 'short', 'pass', None)):
+    r = lib.rng(ctx['seed'], salt)
+    out = []
+    for i in range(nsess):
+        nb = r.choice(boards_choices)
+        arr = arrivals_fn(r) if arrivals_fn else four_arrivals(r, style=styles[i % len(styles)])
+        base = dict(boards=gen_boards(r, nb), arrivals=arr)
+        strats = ['rr'] + r.sample(STRATEGIES[1:], strategies_per - 1)
+        for st in strats:
+            out.append(dict(base, strategy=st, sched_seed=r.randint(0, 10 ** 6)))
+    return out
+
+
+def run_session_property(ctx, prop, ss, oracle_bits, what, theorem, want_replicas=False, need_finished=True):
+    """Common body of C08 / C10 / C20 / C11(b): controlled runs, Spec oracle (bits selected), model tie."""
+    outs = run_sessions(ss)
+    lib.make(['Model/SessionTie.vo', 'Spec/SessionSpec.vo'])
+    viol, ties = [], []
+    items = []
+    for s, o in zip(ss, outs):
+        ref = next((o2 for s2, o2 in zip(ss, outs) if o2['result'] == 'finished' and s2['boards'] is s['boards'] and s2['arrivals'] is s['arrivals']), None)
+        scripts = o.get('scripts') if o['result'] == 'finished' else (ref['scripts'] if ref else o.get('scripts') or {})
+        items.append((s, scripts, observed(s, o)))
+    codes = spec_check(prop, 'oracle', items)
+    reps = replicas_check(prop, 'replicas', [(s, sc, o.get('replicas') or {}) for (s, sc, _), o in zip(items, outs)]) if want_replicas else [0] * len(ss)
+    for (s, scr, ob), o, code, rc in zip(items, outs, codes, reps):
+        bad = code & oracle_bits
+        # connections that arrive after the four seats are taken are never accepted: such a client may wait for ever
+        accepted = len([k for k in o.get('ends', {}) if k.startswith('conn')])
+        stuck = [k for k, v in o.get('ends', {}).items() if v == 'blocked' and not (k.startswith('cli') and int(k[3:]) >= accepted)]
+        incomplete = need_finished and (o['result'] not in ('finished', 'deadlock') or bool(stuck) or o['ends'].get('main') != 'returned')
+        if bad or rc or incomplete:
+            bits = [n for b, n in ((1, 'log records'), (2, 'lines sent to a seated client'), (4, 'turned-away connection not answered with an error and closed')) if bad & b]
+            if rc:
+                bits.append('a client replica differs from the board as played')
+            if incomplete:
+                bits.append(f"session {o['result']}")
+            viol.append(dict(kind=what, input=dict(boards=s['boards'], arrivals=s['arrivals'], strategy=s['strategy'], sched_seed=s['sched_seed']),
+                             observed=dict(differs=bits, result=o['result'], first_lines={k: lines(v['to_client'])[:3] for k, v in list(o.get('transcripts', {}).items())[:2]}),
+                             expected='the sequential reference of Spec/SessionSpec.v', how_found=f"controlled session, strategy {s['strategy']}",
+                             theorem_or_tie=theorem, signature=dict(kind=prop.lower(), differs=','.join(bits))))
+    viol.sort(key=lambda v: len(str(v['input'])))
+    try:
+        res = tie(prop, 'tie', items)
+        bad = [(it[0]['strategy'], c) for it, c in zip(items, res) if c]
+        if bad:
+            ties.append(dict(what='Model/Session.v (canonical schedule) differs from the real run: bits 1 model not final, 2 thread ends, 4 lines to clients, 8 lines to server, 16 log',
+                             count=len(bad), which=bad[:8]))
+    except lib.CoqEvalError as e:
+        ties.append(dict(what='tie case file does not evaluate', detail=str(e)[-800:]))
+    strat = {}
+    for s in ss:
+        strat[s['strategy'].split(':')[0]] = strat.get(s['strategy'].split(':')[0], 0) + 1
+    return dict(evaluations=len(ss), distinct_nontrivial=len({(json.dumps(s['boards'])[:2000], json.dumps(s['arrivals']), s['strategy'], s['sched_seed']) for s in ss}),
+                traces_validated_against_impl=len(items),
+                samples=[dict(strategy=ss[0]['strategy'], steps=outs[0].get('steps'), arrivals=[(a['seat'], a['team'], a.get('version', 18)) for a in ss[0]['arrivals']],
+                              first_lines_to_client0=lines(outs[0]['transcripts']['cli0']['to_client'])[:6] if outs[0].get('transcripts') else None)],
+                distribution=dict(strategies=strat, boards=[len(s['boards']) for s in ss][:12], arrivals=[len(s['arrivals']) for s in ss][:12],
+                                  steps=[o.get('steps') for o in outs][:12], results={r: sum(1 for o in outs if o['result'] == r) for r in {o['result'] for o in outs}}),
+                violations=viol[:6], tie_mismatches=ties)
